@@ -717,11 +717,11 @@ func c10ShapeSub() *engine.Sub {
 	shapes := []string{"sigpayload-1-entry-header-only", "sigpayload-1-entry-payload-only", "sigpayload-3-entries-extra-key", "sigpayload-two-ucan-tags", "sigpayload-3-entries-two-tags",
 		"header-wrong-kind", "outer-length-1", "outer-length-3", "outer-map", "sig-not-bytes", "sigpayload-not-map",
 		"dlg-payload-under-inv-tag", "inv-payload-under-dlg-tag", "unknown-ucan-tag", "tag-without-prefix", "valid-other-type",
-		"near-tag:append-0", "near-tag:append-+x", "near-tag:append-space", "near-tag:drop-last-char", "near-tag:upper-case", "near-tag:other-version", "near-tag:no-version", "near-tag:leading-space", "near-tag:double-slash", "near-tag:empty"}
+		"near-tag:append-0", "near-tag:append-+x", "near-tag:append-space", "near-tag:drop-last-char", "near-tag:upper-case", "near-tag:upper-case-after-prefix", "near-tag:flip-letter-0", "near-tag:flip-letter-1", "near-tag:flip-letter-2", "near-tag:flip-letter-3", "near-tag:flip-letter-4", "near-tag:flip-letter-5", "near-tag:flip-letter-6", "near-tag:flip-letter-7", "near-tag:flip-letter-8", "near-tag:other-version", "near-tag:no-version", "near-tag:leading-space", "near-tag:double-slash", "near-tag:empty"}
 	return &engine.Sub{
 		Name:   "envelope-shapes-and-tags",
 		Repeat: true,
-		Rule:   "well-signed envelopes whose signed part is not exactly one header plus one payload (1 or 3 entries, two ucan/ tags, no header, header of the wrong kind), outer lists of length 1 or 3, a payload under the other type's tag, under an unknown ucan/ tag or under ten near-miss spellings of the right tag (suffix, prefix, case, version), and a valid token of the other type offered to each typed decoder: all must be rejected; a delegation is never returned as an invocation or vice versa; non-trivial = all",
+		Rule:   "well-signed envelopes whose signed part is not exactly one header plus one payload (1 or 3 entries, two ucan/ tags, no header, header of the wrong kind), outer lists of length 1 or 3, a payload under the other type's tag, under an unknown ucan/ tag or under near-miss spellings of the right tag (suffix, prefix, version; all upper case, upper case after the ucan/ prefix, each single letter in the other case), and a valid token of the other type offered to each typed decoder: all must be rejected; a delegation is never returned as an invocation or vice versa; non-trivial = all",
 		Bound:  func(string) string { return fmt.Sprintf("%d shapes x 2 kinds x 6 decoders", len(shapes)) },
 		Gen: func(tier string, emit func(any) bool) {
 			for _, kind := range []string{"dlg", "inv"} {
@@ -780,6 +780,28 @@ func c10ShapeSub() *engine.Sub {
 				sealed = sign(sigPayloadNode(p.Header, "ucan/x@1.0.0-rc.1", pl))
 			case "tag-without-prefix":
 				sealed = sign(sigPayloadNode(p.Header, "dlg@1.0.0-rc.1", pl))
+			case "near-tag:upper-case-after-prefix", "near-tag:flip-letter-0", "near-tag:flip-letter-1", "near-tag:flip-letter-2", "near-tag:flip-letter-3", "near-tag:flip-letter-4", "near-tag:flip-letter-5", "near-tag:flip-letter-6", "near-tag:flip-letter-7", "near-tag:flip-letter-8":
+				// the right tag with the case of its letters changed: all letters after "ucan/", or the k-th letter alone
+				t := []byte(p.Tag)
+				if cs.Shape == "near-tag:upper-case-after-prefix" {
+					t = []byte("ucan/" + strings.ToUpper(p.Tag[len("ucan/"):]))
+				} else {
+					k := int(cs.Shape[len(cs.Shape)-1] - '0')
+					for i := range t {
+						if t[i] >= 'a' && t[i] <= 'z' {
+							if k == 0 {
+								t[i] -= 'a' - 'A'
+								break
+							}
+							k--
+						}
+					}
+				}
+				if string(t) == p.Tag {
+					ctx.Outcome("not-applicable")
+					return
+				}
+				sealed = sign(sigPayloadNode(p.Header, string(t), pl))
 			case "near-tag:append-0", "near-tag:append-+x", "near-tag:append-space", "near-tag:drop-last-char", "near-tag:upper-case", "near-tag:other-version", "near-tag:no-version", "near-tag:leading-space", "near-tag:double-slash", "near-tag:empty":
 				// a tag that is almost - but not exactly - the tag of the token type
 				var t string
@@ -970,6 +992,12 @@ func c10GoValues() []goValue {
 		goValue{"map[string]any", "nested", map[string]any{"z": 1, "a": map[string]any{"y": []string{"p"}, "b": false}, "": "empty key"}, nil},
 		goValue{"map[string]string", "{b:1,a:2}", map[string]string{"b": "1", "a": "2"}, nil}, goValue{"named-map", "{k:1}", myMap{"k": 1}, nil},
 		goValue{"map[string]any", "empty", map[string]any{}, nil}, goValue{"map[string][]byte", "{k:ff}", map[string][]byte{"k": {0xff}}, nil},
+		// map keys that are not valid UTF-8 (Go strings hold any bytes): stored byte for byte, or rejected
+		goValue{"map[string]string", "{x-ff: v}", map[string]string{"x-\xff": "v"}, nil}, goValue{"map[string]int", "{caf-e9: 1}", map[string]int{"caf\xe9": 1}, nil},
+		goValue{"map[string]any", "{lone c3: true}", map[string]any{"\xc3": true}, nil}, goValue{"map[string]any", "{encoded surrogate: 1}", map[string]any{"\xed\xa0\x80": 1}, nil},
+		goValue{"map[string]int", "{ff:1, fe:2}", map[string]int{"\xff": 1, "\xfe": 2}, nil}, goValue{"[]any", "[{80: 1}]", []any{map[string]any{"\x80": 1}}, nil},
+		goValue{"map[string]any", "{a:{f0 9f: 1}}", map[string]any{"a": map[string]int{"\xf0\x9f": 1}}, nil}, goValue{"named-map", "{ff: 1}", myMap{"k\xffk": 1}, nil},
+		goValue{"map[string]string", "{U+FFFD: a, ff: b}", map[string]string{"\uFFFD": "a", "\xff": "b"}, nil},
 		goValue{"*string", "ptr(s)", func() *string { x := "s"; return &x }(), nil}, goValue{"**int", "ptr(ptr(4))", func() **int { x := 4; y := &x; return &y }(), nil},
 		goValue{"*[]int", "ptr([1,2])", &[]int{1, 2}, nil}, goValue{"*map", "ptr({a:1})", &map[string]int{"a": 1}, nil},
 		goValue{"*int", "nil pointer", nilPtr, nil}, goValue{"map", "nil map", nilMap, nil}, goValue{"[]int", "nil slice", nilSlice, nil},
